@@ -15,8 +15,8 @@ RULE = ("correlation A: host call in {none, cudaLaunchKernel, cudaLaunchKernelEx
         "a stream} x launch duration {1,3} x activity start - launch end in {-1,0,2} x activity duration {0,1,3}; "
         "correlation B: one of 4 fixed background patterns; optional uncorrelated extras (launch call without "
         "correlation id + GPU annotation); a magnitude family (raw timestamps/durations near the int8/int16/int32 "
-        "boundaries); x include_memory_events {T,F} x ranks {None,[0],[1],[0,1]} with a "
-        "second rank. non-trivial = at least one expected row and at least one excluded call or activity")
+        "boundaries); x include_memory_events {T,F} x ranks {None,[0],[1],[0,1],[1,0]} with a "
+        "second rank whose non-launch pairs reuse the first rank's correlation ids. non-trivial = at least one expected row and at least one excluded call or activity")
 ASSUMPTIONS = [
     "well-formed trace; a launch call is a runtime call named cudaLaunchKernel, cudaLaunchKernelExC, "
     "cudaMemcpyAsync or cudaMemsetAsync (memory launches only when include_memory_events)",
@@ -107,9 +107,12 @@ def magnitude_worlds():
                            extras=False, events=evs)
 
 
+# rank 1 reuses rank 0's correlation ids (3 and 5) for pairs that are no launches: correlation ids are per rank
 RANK1 = [kineto.cpu_op("aten::root", E0 + 1, 100, ext=0), kineto.runtime("cudaMemsetAsync", E0 + 6, 2, 8),
          kineto.memset("Memset (Device)", E0 + 7, 5, 7, 8), kineto.runtime("cudaLaunchKernelExC", E0 + 10, 1, 9),
-         kineto.kernel("kern_b", E0 + 30, 2, 9, 9)]
+         kineto.kernel("kern_b", E0 + 30, 2, 9, 9),
+         kineto.runtime("cudaStreamSynchronize", E0 + 40, 3, 3), kineto.cuda_sync("Stream Sync", E0 + 40, 3, 7, 3),
+         kineto.runtime("cudaMemcpyAsync", E0 + 50, 2, 5), kineto.memcpy("Memcpy DtoD (Device -> Device)", E0 + 53, 2, 9, 5, bw=1.0)]
 
 
 def expected(events, mem: bool):
@@ -139,7 +142,7 @@ def check(world) -> Dict[str, Any]:
     n_rows = 0
     for mem in (True, False):
         exp = {r: expected(e, mem) for r, e in ranks.items()}
-        for req in (None, [0], [1], [0, 1]):
+        for req in (None, [0], [1], [0, 1], [1, 0]):
             execs += 1
             res = ta.get_cuda_kernel_launch_stats(ranks=req, include_memory_events=mem, visualize=False)
             want = req or [0]
